@@ -1,6 +1,6 @@
 (* C11 - loaded-runner limit, one runner per model, reuse when compatible.   Theorems only. *)
 From Coq Require Import List ZArith NArith Bool Lia Arith.
-From V Require Import Sched.Lts Sched.Reach Sched.Examples.
+From V Require Import Sched.Lts Sched.Reach Sched.InvLock Sched.InvStruct Sched.InvCount Sched.Thm Sched.Examples.
 Import ListNotations.
 
 (* Reuse: when the pending loop looks up a request's model and finds a runner, it goes on to needsReload for that
@@ -24,3 +24,37 @@ Proof.
   - intros s1 x1 H1. unfold run_pc. rewrite H1. reflexivity.
 Qed.
 Print Assumptions C11_reuse_compatible.
+
+(* Repaired scheduler, at least one GPU (or the CPU entry) in the inventory.  In every reachable state the number of
+   runners that have been started and not shut down is at most the maximum - the configured OLLAMA_MAX_LOADED_MODELS
+   or, when that was unset, the value the scheduler assigned itself on its first placement - and nothing is running
+   as long as no maximum is known. *)
+Theorem C11_bound :
+  forall c m ls s ev, fixed c -> 1 <= c_ngpus c -> run c (init_m m) ls = Some (s, ev) ->
+  (0 < maxr s -> nlive s <= maxr s) /\ (maxr s = 0 -> nlive s = 0).
+Proof. intros c m ls s ev Hf Hg H. eapply bound; eauto. eapply run_Reach; eauto. Qed.
+Print Assumptions C11_bound.
+
+(* Repaired scheduler: two runners that are both running (started, not shut down) serve different models. *)
+Theorem C11_one_per_model :
+  forall c m ls s ev r1 r2 x1 x2, fixed c -> run c (init_m m) ls = Some (s, ev) ->
+  getr s r1 = Some x1 -> getr s r2 = Some x2 -> r_closed x1 = false -> r_closed x2 = false ->
+  r_model x1 = r_model x2 -> r1 = r2.
+Proof. intros c m ls s ev r1 r2 x1 x2 Hf H. eapply one_per_model; eauto. eapply run_Reach; eauto. Qed.
+Print Assumptions C11_one_per_model.
+
+(* Repaired scheduler: a server is started (newServerFn is called) only for a model for which no runner is
+   registered at that moment; together with C11_reuse_* : a request whose model has a compatible, responsive runner
+   is served by that runner and no server is started for it. *)
+Theorem C11_new_only_when_absent :
+  forall c m ls s ev l s' e mo res, fixed c -> run c (init_m m) ls = Some (s, ev) ->
+  step c s l = Some (s', e) -> In (ENew mo res) e -> lookup (loaded s) mo = None.
+Proof.
+  intros c m ls s ev l s' e mo res Hf H Hs Hin. eapply step_new_absent; eauto. eapply L2_Reach; eauto. eapply run_Reach; eauto.
+Qed.
+Print Assumptions C11_new_only_when_absent.
+
+Example C11_nonvacuous :
+  fixed cfg_on /\ 1 <= c_ngpus cfg_on /\
+  exists s ev, run cfg_on (init_m 1) (firstn 10 ex_load_unload) = Some (s, ev) /\ nlive s = 1 /\ maxr s = 1 /\ In (ENew 0 (Some 0)) ev.
+Proof. split. reflexivity. split. simpl; auto. vm_compute. eexists; eexists; repeat split; try reflexivity. simpl. tauto. Qed.
